@@ -485,6 +485,7 @@ void harness(void)
                   binson_parser_get_string_bbuf(&p) == NULL && binson_parser_get_bytes_bbuf(&p) == NULL &&
                   binson_parser_get_integer(&p) == 0 && !binson_parser_get_boolean(&p) && dbits(binson_parser_get_double(&p)) == 0,
                   "C09 getters are neutral once an error is set");
+            CHECK(!binson_parser_string_equals(&p, "") && !binson_parser_string_equals(&p, "D"), "C09 string_equals is false once an error is set");
         }
         if (err_b == BINSON_ERROR_NONE && p.error_flags != BINSON_ERROR_NONE && op != 12 && op != 13) {
             CHECK(!op_r, "C09 the call that raises an error returns false");
